@@ -31,6 +31,11 @@ fn wit_of(n: usize, mm: usize, c: usize, d: usize) -> (Cfg, Wit) {
     if mm == 1 {
         w.seed = Some(seed_scalar(2));
     }
+    // a non-zero promise where the value leaves room (capacity must not interact with the promise vector either)
+    let last = mm - 1;
+    if w.values[last] >= 1 {
+        w.promises[last] = Some((w.values[last] + 1) / 2);
+    }
     (cfg, w)
 }
 
@@ -121,9 +126,20 @@ fn pair_case<P: G>(n: usize, m: usize, d: usize, cp: usize, cv: usize) -> Box<dy
                 }
             }
         };
-        // fresh objects
+        // fresh objects. The statement exists at the minimal capacity (the baseline used it): if it cannot be built over an object
+        // of another capacity, the capacity is what makes the difference
         let pp = fresh(cp);
-        let prover = built_on::<P>(&pp, &wit).honest();
+        let prover = match catch(|| built_on::<P>(&pp, &wit)) {
+            Ok(Ok(b)) => b,
+            other => {
+                res.outcome = "statement-refused".into();
+                res.violate(
+                    "fresh/prover-statement",
+                    format!("the statement (aggregation {}, seed {}) that is accepted at capacity {} is refused at capacity {}: {:?}", m, wit.seed.is_some(), m, cp, other.map(|r| r.map(|_| ()).map_err(|e| crate::api::err_name(&e)))),
+                );
+                return res;
+            },
+        };
         let proof = match catch(|| lib_prove(&prover, &CTX_A, &mut HRng::chacha(3))) {
             Ok(Ok(p)) => p,
             other => {
@@ -137,7 +153,17 @@ fn pair_case<P: G>(n: usize, m: usize, d: usize, cp: usize, cv: usize) -> Box<dy
         };
         *res.outcome_counter(if P::to_bytes(&proof) == P::to_bytes(&proof_b) { "proof-bytes-equal-to-minimal-capacity-proof" } else { "proof-bytes-differ-from-minimal-capacity-proof" }) += 1;
         let vv = fresh(cv);
-        let verifier = built_on::<P>(&vv, &wit).honest();
+        let verifier = match catch(|| built_on::<P>(&vv, &wit)) {
+            Ok(Ok(b)) => b,
+            other => {
+                res.outcome = "statement-refused".into();
+                res.violate(
+                    "fresh/verifier-statement",
+                    format!("the statement (aggregation {}, seed {}) that is accepted at capacity {} is refused at capacity {}: {:?}", m, wit.seed.is_some(), m, cv, other.map(|r| r.map(|_| ()).map_err(|e| crate::api::err_name(&e)))),
+                );
+                return res;
+            },
+        };
         judge(&mut res, "fresh", &verifier.statement, &proof);
         // the verifier's object has served another aggregation size before
         for mm in other_sizes(m, cv) {
@@ -260,13 +286,13 @@ fn mixed_cases<P: G>(n: usize, d: usize, depth: usize) -> Vec<Box<dyn Case>> {
                 res.executions += 1;
                 res.validated += 1;
                 if !obs.is_ok() {
-                    // differential: the same aggregation sizes in the same order with one common capacity
+                    // differential: the same aggregation sizes in the same order, every member at its minimal capacity (c = m)
                     let twin_ok = {
                         let mut sts2 = Vec::new();
                         let mut proofs2 = Vec::new();
                         let mut ts2 = Vec::new();
                         for (pos, k) in seq.iter().enumerate() {
-                            let cfg = Cfg::new(tpl.n, MK[*k].0, 8, tpl.d);
+                            let cfg = Cfg::new(tpl.n, MK[*k].0, MK[*k].0, tpl.d);
                             let mut wit = Wit::default_for(&cfg);
                             for j in 0..cfg.m {
                                 wit.values[j] = ((pos + 2 * j) as u64) & cfg.max_value();
@@ -283,9 +309,9 @@ fn mixed_cases<P: G>(n: usize, d: usize, depth: usize) -> Vec<Box<dyn Case>> {
                     };
                     if twin_ok {
                         res.outcome = "rejected".into();
-                        res.violate("VerifyOnly", format!("all-valid batch mixing capacities rejected (the same batch with one common capacity is accepted): {}", obs.describe()));
+                        res.violate("VerifyOnly", format!("all-valid batch mixing capacities rejected (the same batch with every member at capacity = aggregation is accepted): {}", obs.describe()));
                     } else {
-                        res.outcome = "rejected-with-common-capacity-too(skipped)".into();
+                        res.outcome = "rejected-at-minimal-capacities-too(skipped)".into();
                     }
                 }
                 res
@@ -323,9 +349,11 @@ fn run_group<P: G>(rep: &mut Report) {
 }
 
 pub fn run(rep: &mut Report) {
-    rep.rule = "bit lengths x aggregation {1,2,4,8} x every pair (c_p, c_v) of powers of two in [m, 8] (thorough: 32) x degree {1,2}: prove \
-                under capacity c_p, verify (and recover) under capacity c_v, and compare the vector generators of the two parameter objects \
-                over their common prefix; mixed-capacity batch BFS over members {(1,1),(1,4),(2,2),(2,8),(4,4)} to depth 3 (thorough 4) in \
+    rep.rule = "bit lengths x aggregation {1,2,4,8} x every pair (c_p, c_v) of powers of two in [m, 8] (thorough: 32) x degree {1,2}, every parameter object created inside the case: baseline = proved \
+                and accepted at the minimal capacity c = m; then prove under capacity c_p and verify (and recover) under capacity c_v for the use \
+                histories {fresh objects; the verifier's object first verified another aggregation size (smallest / largest it serves); the \
+                prover's object first proved another aggregation size}; recovered masks equal those at the minimal capacity; the vector \
+                generators of the two parameter objects agree at every position both expose; mixed-capacity batch BFS over members {(1,1),(1,4),(2,2),(2,8),(4,4)} to depth 3 (thorough 4) in \
                 every order (each kind supplies the table / the padding in turn)"
         .into();
     run_group::<F>(rep);
